@@ -253,19 +253,24 @@ fn js_value_to_json_with_visited(
                             let props: Vec<_> = obj_ref
                                 .properties
                                 .iter()
-                                .filter(|(_, prop)| prop.enumerable())
+                                // Symbol-keyed properties have no JSON representation
+                                .filter(|(k, prop)| {
+                                    prop.enumerable() && !matches!(k, PropertyKey::Symbol(_))
+                                })
                                 .map(|(k, p)| (k.to_string(), p.value.clone()))
                                 .collect();
                             drop(obj_ref); // Release borrow before recursive calls
 
                             for (key, val) in props {
-                                let json_val = js_value_to_json_with_visited(&val, visited)?;
-                                // Skip undefined values in objects
-                                if json_val != serde_json::Value::Null
-                                    || !matches!(val, JsValue::Undefined)
+                                // Members without a JSON representation are left out of
+                                // objects: undefined, symbols and functions
+                                if matches!(val, JsValue::Undefined | JsValue::Symbol(_))
+                                    || val.is_callable()
                                 {
-                                    map.insert(key, json_val);
+                                    continue;
                                 }
+                                let json_val = js_value_to_json_with_visited(&val, visited)?;
+                                map.insert(key, json_val);
                             }
                             serde_json::Value::Object(map)
                         }
